@@ -290,6 +290,15 @@ def explore(run, tier):
                     bad[b * 1014 + off] = v
                     cases.append({'k': 'unblock', 'file': 'hex:' + bytes(bad).hex()})
     cases.append({'k': 'unblock', 'file': 'hex:' + (b'\x40' * 1014 + b'\x01' * 1012 + b'\x40\x40').hex()})
+    # a corrupted trailer byte next to payload that ENDS in x'40' (filled blocks, blank-padded data): the two bytes at
+    # 1012-1013 are the trailer, whatever the payload before them looks like; line-end and NUL values among the corruptions
+    for payload in (b'\x40' * 1012, b'\x01' * 1010 + b'\x40\x40', b'\x01' * 1011 + b'\x40'):
+        for t in (b'\x40\x0a', b'\x0a\x40', b'\x40\x0d', b'\x40\x00', b'\x00\x40', b'\x40\x20', b'\x20\x40', b'\x0d\x0a',
+                  b'\x40\x1a', b'\x40\x85'):
+            for nb in (1, 2, 3):
+                good_blocks = (b'\x02' * 1012 + b'\x40\x40') * (nb - 1)
+                cases.append({'k': 'unblock', 'file': 'hex:' + (good_blocks + payload + t).hex()})
+                cases.append({'k': 'unblock', 'file': 'hex:' + (payload + t + good_blocks).hex()})
     # whole blocks followed by one or two stray bytes that look like a line end / an end-of-file marker: still not a
     # whole number of blocks
     for fill in (b'\x0a', b'\x1a', b'\x0d\x0a', b'\x00', b'\x40', b'\x20'):
